@@ -23,3 +23,10 @@ U("c09_asset_new", ["C09"], "h_asset", ["C09/asset.c"], ["writer.c"], plain=True
   defines=["-DI18N_DISABLED=1"], cbmc_flags=["--unwind", "8", "--unwinding-assertions", "--object-bits", "10"], bounds={"url length<=": 3, "unwind": 8},
   functions=["asset_new", "my_strdup (writer.c)"], callees={"uuid_new": "contract stub (fresh string; trusted base)", "srand": "contract stub with precondition false", "strlen/strcpy": "byte-loop models"},
   min_obligations=5, timeout=200, cost=5, assumptions=[NOFAIL])
+
+for _dot in (0, 1):
+    U("c09_odf_manifest_assets_%s" % ("ext" if _dot else "noext"), ["C09"], "h_manifest", ["C09/manifest.c"], ["opendocument.c"], plain=True, lib=(), kind="bounded",
+      defines=["-DI18N_DISABLED=1", "-DURL_HAS_DOT=%d" % _dot], cbmc_flags=["--unwind", "40", "--unwindset", "d_string_append_printf.0:122", "--unwinding-assertions", "--object-bits", "12"],
+      bounds={"assets": "one (URL %s an extension)" % ("with" if _dot else "without"), "format": "any"},
+      functions=["opendocument_manifest_file"], callees={"d_string_*": "contract stubs (formatter arguments must be valid strings; the URL is not written)", "HASH_ITER (uthash)": "real macro code over a real one-entry table", "opendocument_style": "stub"},
+      min_obligations=10, timeout=300, cost=10, assumptions=[NOFAIL])
